@@ -87,12 +87,32 @@ def m_len(ctx, f):
             ctx.ob("M-LEN", "inner-has-body_offset", False, "Inner no longer has a body_offset field: rule needs review", "%s:%d" % (frp.file, ln))
             continue
         bo = rv[4][names.index("body_offset")]
-        broots = panics.roots_of(frp, bo)
+        bo_local = mir.root_local(frp, bo)
+
+        def arith_locals(op, depth=0):
+            """user locals an operand is computed from through arithmetic/casts only (stops at named locals)"""
+            if op[0] == "k" or depth > 8:
+                return set()
+            l = mir.root_local(frp, op)
+            if l is not None and (frp.locals[l][1] is not None or 0 < l <= frp.d["argc"]):
+                return {l}
+            o = mir.origin(frp, op)
+            out = set()
+            if o[0] == "rv":
+                for x in mir.rvalue_operands(o[1]):
+                    out |= arith_locals(x, depth + 1)
+            elif o[0] == "place":
+                d = mir.single_def(frp, o[1][0])
+                if d and d[0] == "assign":
+                    for x in mir.rvalue_operands(d[4]):
+                        out |= arith_locals(x, depth + 1)
+            return out
         found = None
         for sb, op, l, r, tt, ft, cl in mir.cmp_switches(frp):
             dl, dr = panics._nm(frp, l), panics._nm(frp, r)
-            rl, rr = panics.roots_of(frp, l), panics.roots_of(frp, r)
-            lenside = ("len(" in dl and (rr & broots)) or ("len(" in dr and (rl & broots))
+            # one side is the buffer length, the other is computed from the very value stored as body_offset
+            # (a bound that leaves out the header padding, e.g. header_len + body_len, is not enough)
+            lenside = ("len(" in dl and bo_local in arith_locals(r)) or ("len(" in dr and bo_local in arith_locals(l))
             if not lenside:
                 continue
             for e, other in ((tt, ft), (ft, tt)):
